@@ -623,6 +623,7 @@ def main(pid, argv=None):
     if pid == "C03" and (not ck.replay or doc_level):
         real_valued_reencode(ck)
     if pid == "C04" and (not ck.replay or doc_level):
+        table_envdata_reject_probe(ck)
         condensed_encode_probe(ck)
         ratfunc_pole_probe(ck, pid)
     if pid == "C17" and (not ck.replay or doc_level):
@@ -1719,14 +1720,66 @@ def unmodelled_doc2(env_order=("all", "a", "b")):
     '<PARAM ID="rq_tab.key" xsi:type="TABLE-KEY"><SHORT-NAME>key</SHORT-NAME><BYTE-POSITION>1</BYTE-POSITION><TABLE-REF ID-REF="tab"/></PARAM>'
     '<PARAM xsi:type="TABLE-STRUCT"><SHORT-NAME>data</SHORT-NAME><BYTE-POSITION>2</BYTE-POSITION><TABLE-KEY-REF ID-REF="rq_tab.key"/></PARAM>'
     '</PARAMS></REQUEST>'
+    f'<REQUEST ID="rq_tab2"><SHORT-NAME>rq_tab2</SHORT-NAME><PARAMS>{_cc("sid", 0, 0x33)}'
+    '<PARAM ID="rq_tab2.key" xsi:type="TABLE-KEY"><SHORT-NAME>key</SHORT-NAME><BYTE-POSITION>1</BYTE-POSITION><TABLE-REF ID-REF="tab"/></PARAM>'
+    '<PARAM xsi:type="TABLE-STRUCT"><SHORT-NAME>data</SHORT-NAME><BYTE-POSITION>2</BYTE-POSITION><TABLE-KEY-REF ID-REF="rq_tab2.key"/></PARAM>'
+    '<PARAM xsi:type="TABLE-STRUCT"><SHORT-NAME>more</SHORT-NAME><BYTE-POSITION>5</BYTE-POSITION><TABLE-KEY-REF ID-REF="rq_tab2.key"/></PARAM>'
+    '</PARAMS></REQUEST>'
     f'<REQUEST ID="rq_dtc"><SHORT-NAME>rq_dtc</SHORT-NAME><PARAMS>{_cc("sid", 0, 0x19)}{_vp("dtc", 1, "dtcdop")}{_vp("st", 4, "u8")}</PARAMS></REQUEST>'
     '</REQUESTS>'
     f'<POS-RESPONSES><POS-RESPONSE ID="pr_list"><SHORT-NAME>pr_list</SHORT-NAME><PARAMS>{_cc("sid", 0, 0x59)}{_vp("dtc_list", 1, "items")}</PARAMS></POS-RESPONSE>'
+    f'<POS-RESPONSE ID="pr_env"><SHORT-NAME>pr_env</SHORT-NAME><PARAMS>{_cc("sid", 0, 0x5A)}{_vp("dtc", 1, "dtcdop")}{_vp("env", 4, "edd")}'
+    '<PARAM xsi:type="VALUE"><SHORT-NAME>tail</SHORT-NAME><DOP-REF ID-REF="pair"/></PARAM></PARAMS></POS-RESPONSE>'
     '</POS-RESPONSES>'
     '</BASE-VARIANT></BASE-VARIANTS></DIAG-LAYER-CONTAINER></ODX>')
 
 
 UNMODELLED_DOC2 = unmodelled_doc2()
+
+
+def table_envdata_reject_probe(ck):
+    """C04 (oracle only; tables and environment data are outside the codec model): value assignments which contradict
+    themselves or carry unknown entries are rejected, whatever stands in front of them --
+    a TABLE-KEY given explicitly which names another row than the TABLE-STRUCT value; two TABLE-STRUCTs of one key naming
+    different rows; an unknown entry in a structure BEHIND an environment data description (whose own parameters are
+    looked up leniently), for a trouble code with and without environment data of its own"""
+    import hier_common as hc
+    from odxtools.exceptions import OdxError
+    try:
+        raw = hc.load_docs([UNMODELLED_DOC2]).diag_layers[0].diag_layer_raw
+    except Exception as e:  # noqa
+        ck.note_broken(f"cannot load the DTC / environment data / table document: {type(e).__name__}: {e}")
+        return
+    rq = {x.short_name: x for x in raw.requests}
+    pr = {x.short_name: x for x in raw.positive_responses}
+    cases = [
+        ("rq_tab", rq["rq_tab"], dict(key="r2", data=("r1", {"k": 5, "d": 0x1234})), "the TABLE-KEY names row r2, the TABLE-STRUCT value row r1"),
+        ("rq_tab", rq["rq_tab"], dict(key="r3", data=("r2", 0xBEEF)), "the TABLE-KEY names row r3, the TABLE-STRUCT value row r2"),
+        ("rq_tab2", rq["rq_tab2"], dict(data=("r2", 0xBEEF), more=("r3", 0x7F)), "two TABLE-STRUCTs of one key name the rows r2 and r3"),
+    ]
+    for code, envv in ((DTC_C, {"status": 1}), (DTC_A, {"status": 1, "temperature": 2})):
+        cases.append(("pr_env", pr["pr_env"], dict(dtc=code, env=envv, tail={"k": 1, "d": 2, "levle": 7}),
+                      f"unknown entry 'levle' in the structure behind the environment data (trouble code {code:#x})"))
+    ok_cases = [("rq_tab2", rq["rq_tab2"], dict(data=("r2", 0xBEEF), more=("r2", 0x0102))),
+                ("pr_env", pr["pr_env"], dict(dtc=DTC_C, env={"status": 1}, tail={"k": 1, "d": 2}))]
+    for nm, obj, v, what in cases:
+        ck.count(("reject", nm, repr(v)))
+        r, e, _ = cc.guarded(lambda: bytes(obj.encode(**v)), timeout=3)
+        rep_ = {"document": "harness/codec_checks.py UNMODELLED_DOC2", "object": nm, "value": repr(v)}
+        if e is None:
+            ck.violation(f"{nm}: {what} -- the encoder emits {r.hex()} instead of rejecting the assignment", rep_)
+            return
+        if not isinstance(e, OdxError):
+            ck.violation(f"{nm}: {what} -- rejected with {type(e).__name__}, which is not the library's error type", rep_)
+            return
+    for nm, obj, v in ok_cases:
+        ck.count(("accept", nm, repr(v)))
+        r, e, _ = cc.guarded(lambda: bytes(obj.encode(**v)), timeout=3)
+        d, e2, _ = cc.guarded(lambda: _norm_dtc(obj.decode(r)), timeout=3) if e is None else (None, None, None)
+        if e is not None or e2 is not None or any(d.get(k) != (list(x) if False else x) and tuple(d.get(k, ())) != x for k, x in v.items()):
+            ck.violation(f"{nm}: the consistent assignment {v!r} gives {r.hex() if e is None else repr(e)} / {d!r} {e2!r}",
+                         {"document": "harness/codec_checks.py UNMODELLED_DOC2", "object": nm, "value": repr(v)})
+            return
 
 
 def _norm_dtc(v):
